@@ -530,13 +530,13 @@ def check_bloom(case, ctx):
 
 LENS = [f"len={n}" for n in range(MAXLEN + 1)]
 SUBS = [
-    Sub("siphash", check_sip, strategy=sip_strategy, budget={"quick": 40000, "thorough": 1200000},
+    Sub("siphash", check_sip, strategy=sip_strategy, budget={"quick": 30000, "thorough": 900000},
         required=LENS + [f"tail={t}" for t in range(8)] + ["chunked"],
         nontrivial_rule="every distinct (key, message, split points, N)"),
-    Sub("murmur3", check_mur, strategy=mur_strategy, budget={"quick": 40000, "thorough": 1200000},
+    Sub("murmur3", check_mur, strategy=mur_strategy, budget={"quick": 30000, "thorough": 900000},
         required=LENS + [f"tail={t}" for t in range(4)] + ["seed>=2^31", "seed=0"],
         nontrivial_rule="every distinct (seed, message)"),
-    Sub("golomb", check_gol, strategy=gol_strategy, budget={"quick": 20000, "thorough": 600000},
+    Sub("golomb", check_gol, strategy=gol_strategy, budget={"quick": 16000, "thorough": 480000},
         required=["q=0", "q>=1", "q=127", "x=0", f"x={2**19 - 1}", f"x={2**19}", f"x={2**26 - 1}",
                   "zero_delta"],
         nontrivial_rule="every distinct list of values"),
@@ -545,10 +545,10 @@ SUBS = [
                   "constructed_collision_pairs=2", "n=0", "n=1", "n=2", "n<253", "n>=253",
                   "empty_element", "element_len=600"],
         nontrivial_rule="element set with >= 1 element"),
-    Sub("headers", check_hdr, strategy=hdr_strategy, budget={"quick": 3000, "thorough": 90000},
+    Sub("headers", check_hdr, strategy=hdr_strategy, budget={"quick": 2400, "thorough": 72000},
         required=["count=0", "count=1", "count<253", "count>=253"],
         nontrivial_rule="chain with >= 1 filter hash"),
-    Sub("bloom", check_bloom, strategy=bloom_strategy, budget={"quick": 3000, "thorough": 90000},
+    Sub("bloom", check_bloom, strategy=bloom_strategy, budget={"quick": 2400, "thorough": 72000},
         required=["size=1", "size=36000", "size<253", "size>=253", "nfuncs=1", "nfuncs=50",
                   "tweak>=2^31", "seed_wraps_2^32", "items=0"],
         nontrivial_rule="filter with >= 1 inserted item"),
